@@ -17,7 +17,8 @@ func init() {
 		decided: "empty containers stay containers (no nil slice can reach the encoder); the Value -> Go conversion covers every value tag (payload for string / bool / number, recursive conversion for array / object in key-sorted order, nil for null / unset, an error for everything else) and the JSON -> Value constructor covers every type encoding/json produces; every recursive descent passes the path extended by the current container and the check flag, and the path scan with the identity test precedes any descent; the identity test compares map identity / shared backing storage; errors of the conversion and of the encoder are propagated by both writers; the JSON text reaches its sink as data (never as a format string) and both -o sinks write the same string." +
 			" GetRootJson and json() return exactly string(MarshalIndent(ToGoValue(v))) (no hand-written fast path, no post-processing of the encoder's text); the -o file is created only after that text exists; every selector result, a null included, becomes a root." +
 			" Indexing a string yields string(byte), never a sub-slice of the text; a copied null is a plain null." +
-			" Array methods do not write into a backing array the document may share; a for-in variable is a copy.",
+			" Array methods do not write into a backing array the document may share; a for-in variable is a copy." +
+			" Member and index reads store nothing through their operand cells.",
 		notDecided: "value equality of the round trip (key order, escaping and number formatting are encoding/json's, trusted).",
 	})
 }
